@@ -1,7 +1,7 @@
 (* Corr/CorrProvider.v — obligations on observations of the real DULServiceProvider.run driven by
    the scripted world (harness/world.py), used by C03, C05, C12, C13. *)
 From PND Require Import Lib.Base Lib.Text Model.Pdu Model.PduWf Model.CmdSet Model.Decoder
-  Spec.Ps38Table Model.Fsm Model.Provider.
+  Spec.Ps38Table Model.Fsm Model.Provider Model.Stream.
 
 Definition snap := (N * bool * bool * N * N * N)%type.   (* state, socket, ARTIM, len(raw_pdu), #wire, #given *)
 
@@ -10,6 +10,7 @@ Record obs := mkobs {
   o_wire : list bytes;             (* oldest first *)
   o_given : list indication;       (* oldest first *)
   o_snaps : list snap;             (* after every iteration *)
+  o_frames : list bytes;           (* the byte strings handed to the PDU decoders, in order *)
 }.
 
 Definition snap_of (s : pstate) : snap :=
@@ -51,7 +52,8 @@ Definition canon_ind (i : indication) : indication :=
 
 Definition model_obs (env : denv) (requestor : bool) (maxlen : N) (ops : list op) : obs :=
   let (sf, snaps) := run_snaps env (p_init requestor maxlen) ops in
-  mkobs (match c_out (ctl sf) with Crashed => 1 | _ => 0 end) (rev (wire sf)) (map canon_ind (rev (given sf))) snaps.
+  mkobs (match c_out (ctl sf) with Crashed => 1 | _ => 0 end) (rev (wire sf)) (map canon_ind (rev (given sf))) snaps
+        (run_frames env (p_init requestor maxlen) ops).
 
 Definition beq_dmsg (a b : dmsg) : bool :=
   match a, b with
@@ -70,13 +72,14 @@ Definition beq_snap (a b : snap) : bool :=
 
 Definition beq_obs (a b : obs) : bool :=
   (o_outcome a =? o_outcome b) && beq_list beq_bytes (o_wire a) (o_wire b)
-  && beq_list beq_ind (o_given a) (o_given b) && beq_list beq_snap (o_snaps a) (o_snaps b).
+  && beq_list beq_ind (o_given a) (o_given b) && beq_list beq_snap (o_snaps a) (o_snaps b)
+  && beq_list beq_bytes (o_frames a) (o_frames b).
 
 (* same result, whatever the number of iterations it took *)
 Definition last_snap (l : list snap) : snap := last l (0, false, false, 0, 0, 0).
 Definition beq_result_obs (a b : obs) : bool :=
   (o_outcome a =? o_outcome b) && beq_list beq_bytes (o_wire a) (o_wire b)
-  && beq_list beq_ind (o_given a) (o_given b)
+  && beq_list beq_ind (o_given a) (o_given b) && beq_list beq_bytes (o_frames a) (o_frames b)
   && (let '(s1, k1, t1, _, _, _) := last_snap (o_snaps a) in
       let '(s2, k2, t2, _, _, _) := last_snap (o_snaps b) in
       (s1 =? s2) && Bool.eqb k1 k2 && Bool.eqb t1 t2).
